@@ -38,6 +38,17 @@ let init () =
   register "circ_wc" (function
     | [x; y; d] -> scirc (circle_with_center (pt x y) (z_in d))
     | _ -> "BAD-ARGS");
+  (* contains() only, as a build with overflow checks evaluates it: PANIC when an intermediate does not fit its type *)
+  register "circ_in" (function
+    | [x; y; d; qx; qy] ->
+        (match circle_contains_checked { c_tl = pt x y; c_d = z_in d } (pt qx qy) with
+         | Some b -> b_out b | None -> "PANIC")
+    | _ -> "BAD-ARGS");
+  register "ell_in" (function
+    | [x; y; w; h; qx; qy] ->
+        (match ellipse_contains_checked { e_tl = pt x y; e_sz = { sw = z_in w; sh = z_in h } } (pt qx qy) with
+         | Some b -> b_out b | None -> "PANIC")
+    | _ -> "BAD-ARGS");
   register "ell_geom" (function
     | [x; y; w; h; m] ->
         let e = { e_tl = pt x y; e_sz = { sw = z_in w; sh = z_in h } } in
